@@ -331,10 +331,14 @@ theorem unfixed_outputs_rejected :
 section fragment
 open GLua.Compile GLua.MiniVM GLua.CompileWf
 
+-- every theorem of this section holds for EVERY number structure (the carrier and operations constant folding computes
+-- with are uninterpreted, Spec/CondAst.lean); the kernel-evaluated witnesses use the integer structure `intNS`.
+variable [NumStruct]
+
 /-- **compile_fragment_wf** — every program of the modelled fragment that satisfies the explicit guards `FragOK`
     (well scoped: every local it mentions is below the register top the compiler has at that point; accepted by the
-    model compiler, i.e. patchCode raises neither "too long to jump." nor "register overflow"; code shorter than 2^17
-    words; at most 2^18 constants) is compiled — compileFunctionExpr → patchCode → encoder → FunctionProto — to a
+    model compiler, i.e. patchCode raises neither "too long to jump." nor "register overflow"; at most 2^18 constants)
+    is compiled — compileFunctionExpr → patchCode → encoder → FunctionProto — to a
     prototype that the verifier accepts. -/
 theorem compile_fragment_wf (nlocals : Nat) (body : Block) (h : FragOK nlocals body = true) :
     ∃ p, fragProto nlocals body = .ok p ∧ wf p = true :=
@@ -350,25 +354,30 @@ theorem compile_fragment_never_faults (nlocals : Nat) (body : Block) (h : FragOK
   exact ⟨wf_pc_in_code hwf hr, (wf_sound hwf hr).1, (wf_sound hwf hr).2, wf_never_panics hwf hr⟩
 
 /-- the guards are satisfiable by a non-trivial program: `local l0, l1 = ...` then a while loop with a compound
-    condition and a swapping multiple assignment, if/else with return and a global store, repeat with a body local
-    used by the until-condition (more than 20 words, 3 registers). -/
+    condition (arithmetic with a folded constant, unary minus, length) and a swapping multiple assignment with a
+    concatenation chain, if/else with return and a global store, repeat with a body local used by the until-condition
+    (more than 25 words, at least 4 registers). -/
 def fragSample : Block := Block.ofList [
-  .whileS (.and (.rel .lt (.loc 0) (.num 3)) (.not (.ev 0)))
-    (Block.ofList [.assign [.loc 0, .loc 1] [.loc 1, .or (.loc 0) (.num 1)]]),
-  .ifS (.rel .eq (.loc 0) (.loc 1)) (Block.ofList [.ret [.loc 0]]) (Block.ofList [.assign [.glob 1] [.nil]]),
+  .whileS (.and (.rel .lt (.arith .add (.loc 0) (.arith .mul (.num 2) (.num 3))) (.unm (.len (.ev 0)))) (.not (.ev 0)))
+    (Block.ofList [.assign [.loc 0, .loc 1]
+      [.concat (.loc 1) (.concat (.str "x") (.arith .mod (.loc 0) (.num 2))), .or (.loc 0) (.num 1)]]),
+  .ifS (.rel .eq (.loc 0) (.loc 1)) (Block.ofList [.ret [.arith .pow (.loc 0) (.loc 1)]]) (Block.ofList [.assign [.glob 1] [.nil]]),
   .repeatS (Block.ofList [.localDef (.rel .le (.loc 0) (.ev 0))]) (.loc 2)]
 
-theorem fragSample_ok : FragOK 2 fragSample = true ∧
-    (fragProto 2 fragSample).toOption.map (fun p => (decide (20 < p.code.size), p.numRegs)) = some (true, 3) := by
+omit [NumStruct] in
+theorem fragSample_ok : @FragOK intNS 2 fragSample = true ∧
+    (@fragProto intNS 2 fragSample).toOption.map (fun p => (decide (25 < p.code.size), decide (4 ≤ p.numRegs))) = some (true, true) := by
   decide +kernel
-example : ∃ p, fragProto 2 fragSample = .ok p ∧ wf p = true := compile_fragment_wf 2 fragSample fragSample_ok.1
+example : ∃ p, @fragProto intNS 2 fragSample = .ok p ∧ wf p = true :=
+  @compile_fragment_wf intNS 2 fragSample fragSample_ok.1
 
+omit [NumStruct] in
 /-- the scoping guard is necessary: `return l5` with two chunk locals is compiled by the model (the real compiler never
     sees such a tree: name resolution would make `l5` a global) to `RETURN 5 2` with NumUsedRegisters = 3, which the
     verifier rejects — so `FragOK` cannot be weakened to "the model compiler succeeds". -/
 theorem compile_fragment_needs_scoping :
     scopeOK 2 (Block.ofList [.ret [.loc 5]]) = false ∧
-    (fragProto 2 (Block.ofList [.ret [.loc 5]])).toOption.map (fun p => (wf p, p.numRegs)) = some (false, 3) := by
+    (@fragProto intNS 2 (Block.ofList [.ret [.loc 5]])).toOption.map (fun p => (wf p, p.numRegs)) = some (false, 3) := by
   decide +kernel
 
 /-! ### the sub-properties, in the property's words (all corollaries of `compile_fragment_wf`; (1)–(4) of the task) -/
@@ -386,10 +395,9 @@ theorem compile_fragment_all_starts (nlocals : Nat) (body : Block) (h : FragOK n
   | error e => simp [hpat] at hp
   | ok r =>
     obtain ⟨code, nregs⟩ := r
-    simp only [hpat, Bool.and_eq_true, decide_eq_true_eq, Except.ok.injEq] at hg hp
+    simp only [hpat, decide_eq_true_eq, Except.ok.injEq] at hg hp
     subst hp
-    have hc := fragOK_cert nlocals body hs code nregs hpat (by have := hg.1; rwa [toProto_code_size] at this)
-      (by have := hg.2; rwa [toProto_consts_size] at this)
+    have hc := fragOK_cert nlocals body hs code nregs hpat (by rwa [toProto_consts_size] at hg)
     have hgl : ∀ j, j < (toProto nlocals (compileMain nlocals body).consts code nregs).code.size →
         groupLen (toProto nlocals (compileMain nlocals body).consts code nregs) j = 1 := by
       intro j hj
@@ -446,7 +454,9 @@ def movenWitness : Block := Block.ofList [
   .ifS (.ev 0) (Block.ofList [.assign [.loc 0] [.loc 1]]) .nil,
   .assign [.loc 1] [.loc 0]]
 
-theorem jump_never_into_moven_full_fails : ¬ jump_never_into_moven_full := by
+omit [NumStruct] in
+theorem jump_never_into_moven_full_fails : ¬ @jump_never_into_moven_full intNS := by
+  letI := intNS
   intro hall
   have hok : FragOK 2 movenWitness = true := by decide +kernel
   have hpat' : (patchCode (compileMain 2 movenWitness)).toOption =
@@ -472,35 +482,38 @@ theorem compile_fragment_invariant (nlocals : Nat) (body : Block) (hs : scopeOK 
 
 /-- patchCode, index by index (ANY compile state): the length is kept, NumUsedRegisters is the fold of `maxregOf`
     plus one and within maxRegisters, and at every index the patched instruction is related to the unpatched one by
-    `Fin`: JMP ↦ JMP distance-of-threadJmp / NOP, the first MOVE of a maximal run of ≥ 2 MOVEs that is followed by
+    `Fin`: JMP ↦ JMP distance-of-threadJmp / NOP (distance 0 and not behind a TFORLOOP), the first MOVE of a maximal run of ≥ 2 MOVEs that is followed by
     another instruction ↦ MOVEN with C = min(run − 1, 511), everything else unchanged. -/
 theorem patchCode_index_invariant (st : CState) (code : List Instr) (nregs : Nat) (h : patchCode st = .ok (code, nregs)) :
     code.length = st.code.length ∧ nregs = mr st.code + 1 ∧ nregs ≤ maxRegisters ∧
     ∀ j, j < st.code.length → ∃ x, code[j]? = some x ∧ Fin st.code st.labelPc j x :=
   patchCode_spec st code nregs h
 
-/-- the compiler itself does not fault on a well-scoped program: the model's `threadJmp` never reaches its
-    out-of-range index (`orig[pc+distance+1]`), the only failures of patchCode are the two compile errors. -/
-theorem compile_fragment_errors (nlocals : Nat) (body : Block) (hs : scopeOK nlocals body = true) (e : String)
-    (h : patchCode (compileMain nlocals body) = .error e) :
+/-- patchCode itself never faults, on ANY compile state: its only failures are the two compile errors (like HEAD's
+    patchCode the model's jump-to-jump loop stops at a target outside the code instead of indexing `orig` with it). -/
+theorem compile_fragment_errors (st : CState) (e : String) (h : patchCode st = .error e) :
     e = "too long to jump." ∨ e = "register overflow(too many local variables)" := by
-  have hlg := (origOK_main nlocals body hs).lg
   unfold patchCode at h
   simp only [bind, Except.bind, pure, Except.pure] at h
-  cases hl : patchLoop (compileMain nlocals body).code (compileMain nlocals body).labelPc (compileMain nlocals body).code.length 0
-      { code := (compileMain nlocals body).code, maxreg := 1, moven := 0 } with
+  cases hl : patchLoop st.code st.labelPc st.code.length 0 { code := st.code, maxreg := 1, moven := 0 } with
   | error e' =>
     simp only [hl, Except.error.injEq] at h
     subst h
-    exact Or.inl (patchLoop_errors _ _ hlg _ _ _ _ hl)
+    exact Or.inl (patchLoop_errors _ _ _ _ _ _ hl)
   | ok ps =>
     simp only [hl] at h
     split at h
     · simp only [Except.error.injEq] at h; exact Or.inr h.symm
     · cases h
 
+/-- … and on a well-scoped program every hop of the jump-to-jump loop lands INSIDE the code (the stop-at-the-end
+    branch is never taken): every label a JMP refers to is bound inside the code. -/
+theorem compile_fragment_labels_inside (nlocals : Nat) (body : Block) (hs : scopeOK nlocals body = true) :
+    LG (compileMain nlocals body).code (compileMain nlocals body).labelPc :=
+  (origOK_main nlocals body hs).lg
+
 /-- both errors occur (so `FragOK`'s "accepted by the compiler" is a real guard): 200 chunk locals overflow the frame. -/
-example : (match fragProto 200 .nil with
+example : (match @fragProto intNS 200 .nil with
     | .error e => e == "register overflow(too many local variables)"
     | .ok _ => false) = true := by decide +kernel
 
